@@ -36,6 +36,11 @@ CHECKS = {
         technique="TLA+ reference CRC-64 (Crc.tla, bit-serial over 16-bit limbs, ASSUME-checked) and verdict table; TLC model-checks chunking independence (CrcMC) and judges every recorded observation: all CRC copies under random chunkings and exhaustive per-artefact fault enumeration (every byte position, truncations, forged-valid trailers) through the three real verifiers (CrcTrace)",
         text="For the digest the reference is evaluated by TLC on every table row (all 256 one-byte messages) of every CRC copy and on random messages with the register compared after every write; for detection, each generated RDB file / DUMP payload is corrupted at every byte position and truncated at every length and the three real verifiers' answers are compared with the verdict table by TLC.",
         note="Single-byte substitutions and truncations only (multi-byte forgeries beyond version-above-with-valid-CRC are out of scope); artefacts come from the harness's independent RDB writer and from the tool's own parser/encoder."),
+    "C14": dict(
+        level="model_checking", design="DESIGN.md 4/C14",
+        technique="TLA+ state generator with the loader's contract as an operator (Checkpoint.tla), consequences checked by TLC in every reachable state; simulated reachable target states installed in a model Redis and the real LoadCheckpoint's result and post-state compared with the contract",
+        text="TLC explores all target states reachable by three sender writes plus one partial damage from three sources (two prefix-related) into three databases (350k states) and checks the contract's consequences; a seeded sample of those states (quick ~4k, thorough more) is replayed: installed over TCP with shuffled hash-field order, real LoadCheckpoint called per source, returned (run id, offset, db, error) and the removal of exactly the stale own entries compared.",
+        note="mredis stands in for the target; offsets are distinct (no ties); the writer side is bound by C04's check."),
 }
 
 NOT_YET = "check not built yet in this session (work in progress; see DESIGN.md section 7 for the order)"
